@@ -168,6 +168,7 @@ type State struct {
 	maxAlloc    *Term             // largest symbolic-size allocation on this path
 	bloom       map[string]*Term  // declared bloom answers, copy-on-write
 	pcMaxVar    int               // largest variable number mentioned by the path condition
+	sawAssert   bool
 }
 
 type Thread struct {
@@ -207,6 +208,7 @@ func (st *State) clone() *State {
 	n.maxAlloc = st.maxAlloc
 	n.bloom = st.bloom
 	n.pcMaxVar = st.pcMaxVar
+	n.sawAssert = st.sawAssert
 	n.preemptLeft = st.preemptLeft
 	n.syncInt = make(map[string]int, len(st.syncInt))
 	for k, v := range st.syncInt {
